@@ -28,59 +28,59 @@ Example C31_expander_hypothesis_satisfiable :
   forall bp, expander_harmless (expanduser []) (SLASH :: bp).
 Proof. exact expander_harmless_nohomes. Qed.
 
-(* VFS verbs: the statement is FALSE, whatever the expander and base_path.
-   Witness "..%2Fsecret/x" under root client path "/": the OS is asked for
-   ../secret/x relative to the served directory. *)
-Theorem C31_vfs_inside_root_refuted :
-  forall expander base_path, exists p segs,
-    wf_bytes p = true /\
-    resolve_vfs expander base_path [SLASH] p = Ok segs /\
-    In dotdot segs /\ stays_inside segs = false.
-Proof.
-  intros e b. exists witness_sep, escaped_segs.
-  destruct (vfs_refuted_sep e b) as (A & B & C). repeat split; auto. left; reflexivity.
-Qed.
-Print Assumptions C31_vfs_inside_root_refuted.
-
-(* second witness, without any encoded separator: "%%%332E%%%332E/secret/x"
-   (the two pathfilter normalisations and the local unescape peel three layers) *)
-Theorem C31_vfs_nested_dot_refuted :
-  forall expander base_path, exists p segs,
-    wf_bytes p = true /\ existsb (N.eqb 47) (pct_decode p) = existsb (N.eqb 47) p /\
-    resolve_vfs expander base_path [SLASH] p = Ok segs /\ stays_inside segs = false.
-Proof.
-  intros e b. exists witness_dot, escaped_segs.
-  destruct (vfs_refuted_dot e b) as (A & B & C). repeat split; auto.
-Qed.
-Print Assumptions C31_vfs_nested_dot_refuted.
-
-(* VFS verbs under the guard "every '%' starts an upper-case escape of a byte
-   outside urlutils.escape's safe set" (what urlutils.escape itself produces). *)
-Theorem C31_vfs_guarded :
-  forall expander base_path, expander_harmless expander base_path ->
-  forall rcp p segs,
-    wf_bytes p = true -> pct_ok p = true ->
-    resolve_vfs expander base_path rcp p = Ok segs ->
-    ~ In dotdot segs /\ stays_inside segs = true.
-Proof. exact vfs_guarded. Qed.
-Print Assumptions C31_vfs_guarded.
-
-Example C31_vfs_guard_satisfiable :
-  forall expander base_path,
-    pct_ok guarded_example = true /\ wf_bytes guarded_example = true /\
-    resolve_vfs expander base_path [SLASH] guarded_example = Ok [[97;32;98]; [126;120]; [102]]%N.
-Proof. exact guarded_example_ok. Qed.
-
-(* The proposed repair of VfsRequest.translate_client_path (unescape BEFORE the
-   jail check): full statement, no guard. *)
-Theorem C31_vfs_repaired_inside_root :
+(* VFS verbs (VfsRequest.translate_client_path as of commit 54ddefb: the client's
+   escaping is removed BEFORE the jail check): full statement, no guard. *)
+Theorem C31_vfs_inside_root :
   forall expander base_path, expander_harmless expander base_path ->
   forall rcp p segs,
     wf_bytes p = true ->
-    resolve_vfs_fixed expander base_path rcp p = Ok segs ->
+    resolve_vfs expander base_path rcp p = Ok segs ->
     ~ In dotdot segs /\ stays_inside segs = true.
-Proof. exact vfs_fixed_inside. Qed.
-Print Assumptions C31_vfs_repaired_inside_root.
+Proof. exact vfs_inside_root. Qed.
+Print Assumptions C31_vfs_inside_root.
+
+Example C31_vfs_served_example :
+  forall expander base_path,
+    wf_bytes vfs_example = true /\
+    resolve_vfs expander base_path [SLASH] vfs_example = Ok [[97;32;98]; [126;120]; [102]]%N.
+Proof. exact vfs_example_ok. Qed.
+
+(* regression: the current translation rejects "..%2Fsecret/x" and maps
+   "%%%332E%%%332E/secret/x" to a literal file name below the served directory *)
+Example C31_vfs_old_witnesses_now_harmless :
+  forall expander base_path,
+    resolve_vfs expander base_path [SLASH] witness_sep = Fail "InvalidURLJoin" /\
+    resolve_vfs expander base_path [SLASH] witness_dot
+    = Ok [[37;37;51;50;69;37;37;51;50;69]; [115;101;99;114;101;116]; [120]]%N.
+Proof. exact vfs_on_old_witnesses. Qed.
+
+(* Statements about the OLD VfsRequest.translate_client_path (before 54ddefb:
+   unescape AFTER the jail check; model translate_vfs_old / resolve_vfs_old).
+   It was FALSE of that code, whatever the expander and base_path: witness
+   "..%2Fsecret/x" under root client path "/" made the OS walk ../secret/x. *)
+Theorem C31_old_vfs_translation_refuted :
+  forall expander base_path, exists p segs,
+    wf_bytes p = true /\
+    resolve_vfs_old expander base_path [SLASH] p = Ok segs /\
+    In dotdot segs /\ stays_inside segs = false.
+Proof.
+  intros e b. exists witness_sep, escaped_segs.
+  destruct (old_vfs_refuted_sep e b) as (A & B & C). repeat split; auto. left; reflexivity.
+Qed.
+Print Assumptions C31_old_vfs_translation_refuted.
+
+(* second witness against the OLD translation, without any encoded separator:
+   "%%%332E%%%332E/secret/x" (two pathfilter normalisations + the local unescape
+   peel three layers) *)
+Theorem C31_old_vfs_translation_nested_dot_refuted :
+  forall expander base_path, exists p segs,
+    wf_bytes p = true /\ existsb (N.eqb 47) (pct_decode p) = existsb (N.eqb 47) p /\
+    resolve_vfs_old expander base_path [SLASH] p = Ok segs /\ stays_inside segs = false.
+Proof.
+  intros e b. exists witness_dot, escaped_segs.
+  destruct (old_vfs_refuted_dot e b) as (A & B & C). repeat split; auto.
+Qed.
+Print Assumptions C31_old_vfs_translation_nested_dot_refuted.
 
 (* _pre_open_hook with a jail installed: a transport is accepted only below an
    allowed root of the same server; anything else fails (JailBreak). *)
